@@ -340,8 +340,10 @@ def run_property(pid, tier, seed, repo='/repo', only_deductive=False, timeout=No
     )
     ev = dict(property_id=pid, tier=tier, seed=seed, level=level, coverage=cov,
               assumptions=A_COMMON + P.get('assumptions', []), wall_s=round(time.time() - t0, 2), violations=nviol)
-    os.makedirs(os.path.join(HERE, 'evidence'), exist_ok=True)
-    json.dump(ev, open(os.path.join(HERE, 'evidence', pid + '.json'), 'w'), indent=1, default=str)
+    # evidence is only written for the real tree; runs on scratch copies (seeded changes, mutation self-test) keep theirs apart
+    evdir = os.path.join(HERE, 'evidence') if os.path.realpath(repo) == '/repo' else os.path.join(HERE, 'replay', 'scratch-evidence')
+    os.makedirs(evdir, exist_ok=True)
+    json.dump(ev, open(os.path.join(evdir, pid + '.json'), 'w'), indent=1, default=str)
     code = 0
     if engine_errors:
         code = 3
